@@ -86,6 +86,8 @@ def gen_strings(ctx):
 def impl_examples(docstr, style):
     """-> ('ok', [(num, lineno)], n_warnings) | ('raised', class) | ('timeout',)"""
     from xdoctest import core
+    if _TIMEOUTS[0] >= 6:
+        return ('timeout',)       # already reported several times by this worker: see _TIMEOUTS
     old = signal.signal(signal.SIGALRM, _alarm)
     signal.alarm(5)
     try:
@@ -113,11 +115,14 @@ def impl_examples(docstr, style):
 def oracle_inputs(docstr):
     """answers of the google splitter and of DoctestParser.parse, as data for the Collect model
     (under an alarm: a parse that hangs must not hang the check; the hang itself is reported by the caller)"""
+    if _TIMEOUTS[0] >= 6:
+        return Sym('splitter-raised'), None
     old = signal.signal(signal.SIGALRM, _alarm)
     signal.alarm(10)
     try:
         return _oracle_inputs(docstr)
     except Timeout:
+        _TIMEOUTS[0] += 1
         return Sym('splitter-raised'), None
     finally:
         signal.alarm(0)
@@ -229,6 +234,7 @@ def embedded(ctx, strings):
     from xdoctest import core
     tmp = tempfile.mkdtemp(prefix='xdverif_c14_')
     nv = 0
+    nhang = 0        # collections that did not return: after four the remaining modules are skipped (all four are reported)
     try:
         rng = ctx.rng('embed')
         picks = [s for s in strings if '"""' not in s and '\x00' not in s and '\\' not in s and '\r' not in s and '\x0c' not in s]
@@ -243,6 +249,8 @@ def embedded(ctx, strings):
         cr_texts = ['>>> print(1)\r    1\r    >>> x = (\r    some text\r' * k for k in (1, 3, 6)] + ['Example:\r        >>> f(\r\r\r\r    Args:\r']
         picks += [(s, 'cr') for s in cr_texts] + [(s, 'cr-last') for s in cr_texts]
         for n, (s, raw) in enumerate(picks):
+            if nhang >= 4:
+                break
             body = '\n'.join('    ' + l for l in s.split('\n'))
             src = MOD_TMPL % body
             if raw == 'cr-last':
@@ -290,6 +298,7 @@ def embedded(ctx, strings):
                                 problem = 'valid neighbour %s does not pass' % e.callname
                 except Timeout:
                     problem = 'collection hangs (10 s alarm)'
+                    nhang += 1
                 except Exception as e:
                     problem = 'parse_doctestables raised %s: %s' % (type(e).__name__, str(e)[:200])
                 finally:
